@@ -61,6 +61,7 @@ def CallSafe (P : Nat → Prop) : {β : Type} → Call β → Prop
   | _, .addServer svr res => P svr.addr.key ∧ svr.addr.PortOk ∧ ResolverKeeps res
   | _, .updateServer svr res => P svr.addr.key ∧ svr.addr.PortOk ∧ ResolverKeeps res
   | _, .removeServer svr res => P svr.addr.key ∧ ResolverKeeps res
+  | _, .updateServerT svr res => P svr.addr.key ∧ svr.addr.PortOk ∧ ∀ t, ResolverKeeps (res t)
   | _, .insAdd i => i.addr.PortOk
   | _, .insClear _ => False
   | _, _ => True
@@ -173,6 +174,32 @@ theorem exec_safe {P : Nat → Prop} {β : Type} (c : Call β) (s : AbsState) (n
           exact ⟨this.1, this.2.1⟩
       · have := save_spec (P := P) hs now svr hP hok
         exact ⟨this.1, this.2.1⟩
+  | updateServerT svr resT =>
+    obtain ⟨hP, hok, hresT⟩ := hc
+    have hres := hresT now
+    simp only [Call.exec, AbsState.update]
+    cases hrow : s.getRow svr.addr with
+    | none => exact ⟨hs, Frame.refl _ _⟩
+    | some ex =>
+      have hex := hs.1 _ _ ((getRow_eq s svr.addr) ▸ hrow)
+      simp only
+      split
+      · cases hr : resT now ex.svr with
+        | none => exact ⟨hs, Frame.refl _ _⟩
+        | some resolved =>
+          dsimp only
+          have ha := hres _ _ hr
+          have := save_spec (P := P) hs now resolved (by rw [ha, hex.1]; exact hP) (by rw [ha]; exact hex.2)
+          exact ⟨this.1, this.2.1⟩
+      · have := save_spec (P := P) hs now svr hP hok
+        exact ⟨this.1, this.2.1⟩
+  | popMany n =>
+    have h1 : (s.popMany now n).1.servers = s.servers := by
+      unfold AbsState.popMany; split <;> rfl
+    have h2 : (s.popMany now n).1.instances = s.instances := by
+      unfold AbsState.popMany; split <;> rfl
+    simp only [Call.exec]
+    exact ⟨⟨by rw [h1]; exact hs.1, by rw [h2]; exact hs.2⟩, fun k _ => by rw [h1]⟩
   | removeServer svr res =>
     obtain ⟨hP, hres⟩ := hc
     simp only [Call.exec, AbsState.remove]
